@@ -58,7 +58,8 @@ class Q:
                  unwind=None, unwindset=None, flags=(), remove_bodies=(), export_local=False,
                  includes=(), timeout=900, mem_gb=12, threads=False, kf=None, ub_scope=(),
                  no_mem=False, note="", funcs=(), bounds=None, malloc_may_fail=False, tiers=None,
-                 object_bits=None, solver=None, unwind_assert=True, kf_match=None, hdefs=()):
+                 object_bits=None, solver=None, unwind_assert=True, kf_match=None, hdefs=(), instrument_units=()):
+        self.instrument_units = list(instrument_units)  # goto-instrument argv applied to the unit objects before linking (e.g. --havoc-loops)
         self.hdefs = list(hdefs)        # -D for harness + models only (keeps the unit objects cacheable across queries)
         self.kf_match = kf_match      # regex: failing CBMC properties that ARE the known finding
         self.name = name
@@ -214,6 +215,22 @@ class Builder:
                     stripped.append(so)
                 self.cache[key] = stripped
             uobjs = self.cache[key]
+        if q.instrument_units:
+            ins = []
+            for o in uobjs:
+                key = ("ins", o, tuple(q.instrument_units))
+                with self._keylock(key):
+                    if key not in self.cache:
+                        with self.glock:
+                            self.counter += 1
+                            n = self.counter
+                        so = o[:-3] + "_ins%d.gb" % n
+                        rc, out, _ = run(["goto-instrument"] + list(q.instrument_units) + [o, so], timeout=300)
+                        if rc != 0:
+                            raise RuntimeError("goto-instrument failed:\n" + out[-2000:])
+                        self.cache[key] = so
+                ins.append(self.cache[key])
+            uobjs = ins
         objs += uobjs
         hd = defs + ["-D" + d if not d.startswith("-") else d for d in q.hdefs]
         for m in q.models:
